@@ -62,7 +62,20 @@ type c01Engine struct {
 	debug bool
 }
 
+// ctx: the generated context, overlaid with the context of the corpus entry that takes part in this history (the same in
+// the shared process and in the pristine one)
+func (h *c01History) ctx(k int) map[string]interface{} {
+	m := h.ts.GoCtxVariant(k)
+	if h.wild != nil {
+		for n, v := range h.wild.Ctx(nil) {
+			m[n] = v
+		}
+	}
+	return m
+}
+
 type c01History struct {
+	wild    *WildEntry
 	ts      *TSet
 	srcs    map[string]string
 	ops     []c01Op
@@ -108,6 +121,8 @@ var c01Twins = [][]string{
 	{"{{ 'a b'|url_encode }}", "{{ 'a&b'|url_encode }}", "{{ 'a b'|nl2br }}", "{{ 'a\nb'|nl2br }}"},
 	{"{{ [1, 'a', null]|json_encode }}", "{{ {'k': [1, 2]}|json_encode }}", "{{ 'q\"'|json_encode }}"},
 	{"{{ 'tag <b>x</b>'|striptags }}", "{{ 'tag <i>y</i>'|striptags }}", "{{ '<b>x</b>'|length }}"},
+	// a sandboxed include followed by plain renders that use filters outside the policy (per-render flags left in pooled objects)
+	{"[{% include 'sbx_part' sandboxed %}]", "{{ 'a b'|url_encode }}{{ [3, 1]|sort|join }}", "[{% include 'sbx_part' sandboxed %}]{{ 'x y'|url_encode }}", "{{ 'q'|upper }}{{ max(1, 2) }}"},
 	// names that differ only in letter case, or share a prefix / a length (string tables, interning, case folding)
 	{"{% set seedQty = 'MIXED' %}{% set seedqty = 'lower' %}[{{ seedqty }}]", "{% set seedQty = 'MIXED' %}{% set seedqty = 'lower' %}[{{ seedQty }}]", "{% set SEEDQTY = 'UPPER' %}[{{ SEEDQTY }}{{ seedqty }}]"},
 	{"{% macro Row(x) %}<R{{ x }}>{% endmacro %}{% macro row(x) %}<r{{ x }}>{% endmacro %}{{ row(1) }}", "{% macro Row(x) %}<R{{ x }}>{% endmacro %}{% macro row(x) %}<r{{ x }}>{% endmacro %}{{ Row(1) }}", "{% macro ROW(x) %}<ROW{{ x }}>{% endmacro %}{{ ROW(1) }}"},
@@ -125,6 +140,7 @@ func (p *c01) gen(seed uint64, idx int) *c01History {
 	for k, v := range c01BadTemplates {
 		h.srcs[k] = v
 	}
+	h.srcs["sbx_part"] = "{{ 'Part'|lower }}"
 	if r.P(1, 6) {
 		// a long template so that the second tokenizer and interning are in play
 		h.srcs["plain"] = strings.Repeat("<p>filler text with a few words</p>\n", 140) + h.srcs["plain"]
@@ -132,6 +148,30 @@ func (p *c01) gen(seed uint64, idx int) *c01History {
 	h.nEng = r.Range(1, 3)
 	n := r.Range(8, 60)
 	entries := append([]string{}, h.ts.Entries...)
+	// one or two entries of the independently written corpus (those whose template names are free)
+	for tries := 0; tries < 6 && h.wild == nil && idx%3 == 0; tries++ {
+		we, ok := wildPickSmall(r)
+		if !ok {
+			break
+		}
+		free := true
+		for n, src0 := range we.Templates {
+			if _, taken := h.srcs[n]; taken || len(src0) > 2500 {
+				free = false
+			}
+		}
+		if !free {
+			continue
+		}
+		for n, src := range we.Templates {
+			h.srcs[n] = src
+		}
+		for w := 0; w < 3; w++ {
+			entries = append(entries, we.Render)
+		}
+		wcopy := we
+		h.wild = &wcopy
+	}
 	for g := 0; g < 5; g++ {
 		gi := r.Intn(len(c01Twins))
 		for mi, src := range c01Twins[gi] {
@@ -251,6 +291,11 @@ func c01NewEngine(st *c01Engine) (*twig.Engine, *twig.ArrayLoader) {
 	l := twig.NewArrayLoader(cp)
 	e.RegisterLoader(l)
 	e.AddFunction("boom", c01Boom)
+	// every engine has a security policy (it only matters inside `include ... sandboxed`)
+	pol := twig.NewDefaultSecurityPolicy()
+	pol.AllowedFilters = map[string]bool{"lower": true, "escape": true}
+	pol.AllowedFunctions = map[string]bool{}
+	e.EnableSandbox(pol)
 	e.SetCache(st.cache)
 	if st.debug {
 		e.SetDebug(true)
@@ -281,7 +326,7 @@ func (p *c01) oneshot(args []string) {
 		if err != nil {
 			out.Err, out.Msg = true, err.Error()
 		} else {
-			s, err := t.Render(h.ts.GoCtxVariant(op.CtxK))
+			s, err := t.Render(h.ctx(op.CtxK))
 			out.Out, out.Err = s, err != nil
 			if err != nil {
 				out.Msg = err.Error()
@@ -289,10 +334,10 @@ func (p *c01) oneshot(args []string) {
 		}
 	case "renderTo", "renderToFail":
 		var buf bytes.Buffer
-		err := e.RenderTo(&buf, op.Name, h.ts.GoCtxVariant(op.CtxK))
+		err := e.RenderTo(&buf, op.Name, h.ctx(op.CtxK))
 		out.Out, out.Err = buf.String(), err != nil
 	default:
-		s, err := e.Render(op.Name, h.ts.GoCtxVariant(op.CtxK))
+		s, err := e.Render(op.Name, h.ctx(op.CtxK))
 		out.Out, out.Err = s, err != nil
 		if err != nil {
 			out.Msg = err.Error()
@@ -443,7 +488,7 @@ func (p *c01) Run(rec *core.Recorder, seed uint64, idx int, tier string) {
 	for k, op := range h.ops {
 		e := engines[op.Eng]
 		changed := map[string]bool{}
-		ctx := h.ts.GoCtxVariant(op.CtxK)
+		ctx := h.ctx(op.CtxK)
 		rec.Count("op:"+op.Kind, 1)
 		switch op.Kind {
 		case "render", "badRender":
